@@ -67,16 +67,16 @@ Definition t_field (t_dict : pv -> option tv) (i32 : bool) (i32l : option (list 
   | PDict _ _ _ => t_dict v
   end.
 
-Fixpoint t_thrift (d : nat) (i32 : bool) (i32l : option (list Z)) (fs : list (Z * pv)) {struct d} : option tv :=
+Fixpoint t_thrift (ids : list Z) (d : nat) (i32 : bool) (i32l : option (list Z)) (fs : list (Z * pv)) {struct d} : option tv :=
   match d with
   | O => None
   | S d' =>
-    let t_dict := fun v : pv => match v with PDict a b c => t_thrift d' a b c | _ => None end in
-    option_map TStruct (t_fields (t_field t_dict i32 i32l) ids13 fs)
+    let t_dict := fun v : pv => match v with PDict a b c => t_thrift ids d' a b c | _ => None end in
+    option_map TStruct (t_fields (t_field t_dict i32 i32l) ids fs)
   end.
 
-Definition t_top (v : pv) : option tv :=
-  match v with PDict a b c => t_thrift w_depth a b c | _ => None end.
+Definition t_top (ids : list Z) (v : pv) : option tv :=
+  match v with PDict a b c => t_thrift ids w_depth a b c | _ => None end.
 
 (* ---- what read_thrift builds from (the encoding of) a value tree ----------------------------- *)
 Definition has_nib (n : N) (fs : list (N * tv)) : bool := existsb (fun p => nib (snd p) =? n) fs.
@@ -162,13 +162,13 @@ Definition rwf_fields : list (N * tv) -> bool :=
   fix allf (fs : list (N * tv)) : bool := match fs with [] => true | (id, x) :: r => rwf x && allf r end.
 
 (* ---- the objects for which the round trip is claimed ----------------------------------------
-   every key that carries a value is one of 1..13 (write_thrift's `range(1, 14)`), no floats (the
+   every key that carries a value is in `ids` (1..13 for write_thrift's `range(1, 14)`, 1..14 for the repaired loop), no floats (the
    Parquet IDL has none; read_thrift misreads them), byte strings and lists shorter than 2^31
    (`cdef int l`), lists homogeneous: ints (C int range; bools count as ints), str, or dicts
    (a list of `bytes` comes back as a list of `str`, which Python does not consider equal).     *)
 Definition small (n : N) : bool := n <? 2 ^ 31.
 
-Fixpoint dom (d : nat) (v : pv) {struct d} : bool :=
+Fixpoint dom (ids : list Z) (d : nat) (v : pv) {struct d} : bool :=
   match d with
   | O => false
   | S d' =>
@@ -186,10 +186,10 @@ Fixpoint dom (d : nat) (v : pv) {struct d} : bool :=
         | PBool _ :: _ | PInt _ :: _ =>
             forallb (fun x => match x with PInt z => in_cint z | PBool _ => true | _ => false end) l
         | PStr _ :: _ => forallb (fun x => match x with PStr s => small (len s) | _ => false end) l
-        | PDict _ _ _ :: _ => forallb (fun x => match x with PDict _ _ _ => dom d' x | _ => false end) l
+        | PDict _ _ _ :: _ => forallb (fun x => match x with PDict _ _ _ => dom ids d' x | _ => false end) l
         | _ => false
         end
     | PDict _ _ fs =>
-        forallb (fun kv => match snd kv with PNone => true | x => existsb (Z.eqb (fst kv)) ids13 && dom d' x end) fs
+        forallb (fun kv => match snd kv with PNone => true | x => existsb (Z.eqb (fst kv)) ids && dom ids d' x end) fs
     end
   end.
